@@ -351,7 +351,9 @@ func (d *mapDriver) expireAll() {
 	d.be.ExpireAll(bg)
 
 	// "entries touched by ExpireAll" are counted as expired: every fresh or never-expiring entry is
-	// touched; an entry that had expired before is touched iff it carries the ExpireAll instant now.
+	// touched; an entry that had expired before and carries the ExpireAll instant now was touched as
+	// well; one that keeps its older expiry was visited but not changed - whether that is "touched"
+	// is open, it may or may not be counted.
 	after := map[string]int64{}
 	_, _ = d.be.Walk(func(k []byte, _ interface{}, exp time.Time) error {
 		after[string(k)] = exp.UnixNano()
@@ -372,6 +374,9 @@ func (d *mapDriver) expireAll() {
 			} else if a == now.UnixNano() {
 				counted++
 				d.c.Class("expireall-restamps-expired-entry")
+			} else {
+				counted++
+				d.cnt.expiredSlack++
 			}
 		case e.e == now.UnixNano():
 			// expires at this very instant anyway: touched or not cannot be told
